@@ -60,6 +60,12 @@ CHECKS = {
    text="All histories nesting 19 block-forming constructs to depth 3 (4 thorough) with 0-2 simple statements around the nested construct at each level, in three current-file regimes, plus all 4^8 chains of depth 8 over one representative per context-saving mechanism: 109k histories / 11M operations (quick). After every operation the stack delta equals the documented arity; after every statement the stack is at the block's base; after every End the stack height, Scope(), Func(), InVBlock() and label visibility equal the values recorded at open; finally the package type-checks.",
    note="Trusted: the arity table embedded in the driver (documented arities); the frame model.",
    design="§4 C16"),
+ "C03": dict(
+   category="exploration",
+   technique="bounded exhaustive enumeration of the expression grammar on the real CodeBuilder; oracle = go/types' own type of every emitted sub-expression (types.Eval, no context conversion) and Info.Defs of declared objects",
+   text="For every accepted, well-typed program of the C01 expression space in 10 value-flow uses, every IR sub-expression is paired with the emitted syntax and the type recorded when the builder pushed it must equal the type go/types gives that syntax evaluated on its own (typed: identical; untyped: same kind); every declared object's builder-scope type must equal go/types' Info.Defs type; Recorder.Member objects must be the selected objects. Deviations pinned in known/C03.<tier>.tsv.",
+   note="Trusted: go/types 1.23.5; parallel IR/syntax traversal; programs the builder accepts but go/types rejects are C01's business and skipped here.",
+   design="§4 C03"),
 }
 
 NOT_APPLICABLE = {
